@@ -4,6 +4,7 @@ import (
 	"context"
 	"fmt"
 	"math/rand/v2"
+	"runtime"
 	"sort"
 	"strings"
 	"sync"
@@ -876,6 +877,9 @@ func c23RunConc(c c23Case, rng *rand.Rand) []c23HistOp {
 	var hist []c23HistOp
 	record := func(client int, in mpIn, f func() mpOut) mpOut {
 		call := clock.Tick()
+		if (call+int64(client))%3 == 0 {
+			runtime.Gosched() // widen the window between invocation stamp and call
+		}
 		out := f()
 		ret := clock.Tick()
 		mu.Lock()
@@ -1009,7 +1013,7 @@ func TestC23(t *testing.T) {
 
 	// (1) sequential
 	rng := r.Rand("sequential")
-	n := r.N(40000, 600000)
+	n := r.N(25000, 200000)
 	maxStates := 0
 	for i := 0; i < n && r.Violations() < 10; i++ {
 		c := c23GenSeq(rng)
@@ -1038,7 +1042,7 @@ func TestC23(t *testing.T) {
 
 	// (2) concurrent
 	crng := r.Rand("concurrent")
-	m := r.N(3000, 40000)
+	m := r.N(2000, 12000)
 	for i := 0; i < m && r.Violations() < 10; i++ {
 		nItems := 2 + crng.IntN(4)
 		c := c23Case{Items: c23GenItems(crng, nItems)}
@@ -1070,6 +1074,10 @@ func TestC23(t *testing.T) {
 			}
 			r.Distinct("conc", c.MaxSize, c.MaxSponsor, b.String())
 		}
+	}
+	if r.Violations() > 0 {
+		r.Finish(0) // cut short by the violation cap
+		return
 	}
 	r.Finish(2000)
 }
